@@ -8,6 +8,7 @@ CONSTANTS
   MaxRepl = 3
   MaxWrites = 3
   NoSkew = TRUE
+  ArmQuota = 2
   EnableRename = FALSE
 INIT Init
 NEXT Next
@@ -16,4 +17,5 @@ INVARIANT InvConvergedButSessions
 INVARIANT InvConvergedSessions
 INVARIANT InvUniqueLive
 PROPERTY NoResurrection
+INVARIANT ArmExport
 CHECK_DEADLOCK FALSE
